@@ -396,3 +396,80 @@ m('c10-glue-first-row', ['C10'],
 m('c10-boundary-flag', ['C10'],
   (M, "                if i + 1 == N_x: e2.on_boundary = True",
    "                if i == N_x: e2.on_boundary = True"), rule='R-wiring')
+
+# ---- C17 ------------------------------------------------------------------
+m('c17-imap-unordered', ['C17'],
+  (SL, "mp.Pool(mp.cpu_count()).imap(MP_SL_matrix_col, range(M),",
+   "mp.Pool(mp.cpu_count()).imap_unordered(MP_SL_matrix_col, range(M),"),
+  rule='R-ordered')
+m('c17-globals-late', ['C17'],
+  (SL, """            globals()['__SL'] = self
+            cpu = mp.cpu_count()
+            for j, col in enumerate(
+                    mp.Pool(mp.cpu_count()).imap(MP_SL_matrix_col, range(M),
+                                                 M // (16 * cpu) + 1)):
+                mat[:, j] = col""", """            cpu = mp.cpu_count()
+            pool = mp.Pool(mp.cpu_count())
+            globals()['__SL'] = self
+            for j, col in enumerate(
+                    pool.imap(MP_SL_matrix_col, range(M),
+                              M // (16 * cpu) + 1)):
+                mat[:, j] = col"""), rule='R-handover')
+m('c17-global-misspelt', ['C17'],
+  (SL, "            globals()['__elems_trial'] = elems_trial",
+   "            globals()['__elems_trail'] = elems_trial"), rule='R-handover')
+m('c17-key-drops-trial', ['C17'],
+  (SL, """            md5 = hashlib.md5((str(self.mesh.gamma_space) + str(elems_test) +
+                               str(elems_trial)).encode()).hexdigest()""",
+   """            md5 = hashlib.md5((str(self.mesh.gamma_space) +
+                               str(elems_test)).encode()).hexdigest()"""),
+  rule='R-cachekey')
+m('c17-key-drops-curve', ['C17'],
+  (IP, """            md5 = hashlib.md5((str(self.bdr_mesh.gamma_space) +
+                               str(elems)).encode()).hexdigest()""",
+   """            md5 = hashlib.md5((str(elems)).encode()).hexdigest()"""),
+  rule='R-cachekey')
+m('c17-except-returns', ['C17'],
+  (SL, """                print("Loaded Single Layer from file {}".format(cache_fn))
+                return mat
+            except:
+                pass""", """                print("Loaded Single Layer from file {}".format(cache_fn))
+                return mat
+            except:
+                return np.zeros((N, M))"""), rule='R-cacheio')
+m('c17-repr-lossy', ['C17'],
+  (M, """        return "Elem(t={}, x={})".format(self.time_interval,
+                                         self.space_interval)""",
+   """        return "Elem(t=({:g}, {:g}), x=({:g}, {:g}))".format(
+            *self.time_interval, *self.space_interval)"""), rule='R-cachekey')
+m('c17-repr-drops-time', ['C17'],
+  (M, """        return "Elem(t={}, x={})".format(self.time_interval,
+                                         self.space_interval)""",
+   """        return "Elem(x={})".format(self.space_interval)"""),
+  rule='R-cachekey')
+m('c17-pool-kept', ['C17'],
+  (IP, """            cpu = mp.cpu_count()
+            vec = np.array(
+                mp.Pool(mp.cpu_count()).map(MP_M0_val, range(N),
+                                            N // (cpu * 8) + 1))""",
+   """            cpu = mp.cpu_count()
+            if getattr(self, 'pool', None) is None:
+                self.pool = mp.Pool(mp.cpu_count())
+            vec = np.array(
+                self.pool.map(MP_M0_val, range(N), N // (cpu * 8) + 1))"""),
+  rule='R-handover')
+m('c17-worker-component', ['C17'],
+  (IP, "    return __M0.linform(__elems[j])[0]",
+   "    return __M0.linform(__elems[j])[1]"), rule='R-samecall')
+m('c17-sobolev-flag', ['C17', 'C09'],
+  (EE, """    return __error_estimator.sobolev_time(__elems[i],
+                                          __residual,
+                                          nbrs_symmetry=True)""",
+   """    return __error_estimator.sobolev_time(__elems[i],
+                                          __residual,
+                                          nbrs_symmetry=False)"""),
+  rule='R-samecall')
+m('c17-save-unprotected-twin', ['C17'],
+  (SL, """                print("Stored Single Layer to {}".format(cache_fn))""",
+   """                print("Stored SL to {}".format(cache_fn))"""),
+  expect='silent')
